@@ -1046,6 +1046,18 @@ def cmp_term(op, a, b):
                 return ("const", eq if op == "==" else not eq)
             if x[0] == "enum" and y[0] == "const" and op in ("==", "!=") and x[4] == "enum" and y[1] is not None:
                 return ("const", op == "!=")        # a plain Enum member never equals a plain value
+    if op in ("==", "!=") and isinstance(a, tuple) and isinstance(b, tuple) and a and b and b[0] == "const" and \
+            isinstance(b[1], (int, str)) and not isinstance(b[1], bool):
+        def const_leaves(t):
+            return (t[0] == "const" and isinstance(t[1], (int, str)) and not isinstance(t[1], bool)) or \
+                (t[0] == "gate" and const_leaves(t[2]) and const_leaves(t[3]))
+        if a[0] == "gate" and const_leaves(a):
+            # [c ? 1 : 2] == 1: decided arm by arm
+            def fold(t):
+                if t[0] == "gate":
+                    return gate(t[1], fold(t[2]), fold(t[3]))
+                return ("const", (t[1] == b[1]) if op == "==" else (t[1] != b[1]))
+            return fold(a)
     if op in ("in", "not in") and isinstance(b, tuple) and b:
         items = b[1] if (b[0] == "tuple" and len(b) == 2) else (b[3] if b[0] == "new" and b[2] in ("list", "set", "frozenset", "tuple") else None)
         if items is not None and 1 <= len(items) <= 4 and all(isinstance(i, tuple) and i and i[0] == "const" and
@@ -3764,6 +3776,18 @@ class Summariser:
                     return self.field(f"{base[1]}.{idx[1]}")
                 raise Unsupported(f"slot {ast.unparse(e.slice)[:40]} of self.{base[1]} is not one of its constant keys "
                                   f"at {self.module.path}:{e.lineno}")
+            if base[0] == "constdict" and idx[0] == "gate":
+                def pick_entry(k):
+                    if k[0] == "gate":
+                        a_, b_ = pick_entry(k[2]), pick_entry(k[3])
+                        return gate(k[1], a_, b_) if a_ is not None and b_ is not None else None
+                    if k[0] == "const":
+                        hit = [v for kk, v in base[1] if kk == k]
+                        return hit[0] if hit else None
+                    return None
+                got = pick_entry(idx)
+                if got is not None:
+                    return got
             if base[0] == "constdict":
                 table = {k[1]: v for k, v in base[1]}
                 if idx[0] == "const":
@@ -4036,7 +4060,36 @@ class Summariser:
         self.env.pop(acc, None)
         return self.env.pop(out)
 
+    def _getattr_choice_call(self, e, events):
+        """getattr(obj, NAME)(args) where NAME is a selection between constant names: an `if` between the two calls."""
+        g = e.func
+        if not (isinstance(g, ast.Call) and isinstance(g.func, ast.Name) and g.func.id == "getattr" and "getattr" not in self.env and
+                len(g.args) == 2 and not g.keywords):
+            return None
+        try:
+            name = self._expr(g.args[1], [])
+        except Unsupported:
+            return None
+
+        def consts(t):
+            return t[0] == "const" and isinstance(t[1], str) and t[1].isidentifier() or (t[0] == "gate" and consts(t[2]) and consts(t[3]))
+        if name[0] != "gate" or not consts(name):
+            return None
+        tmp = f"call@{e.lineno}:{e.col_offset}:{len(self.stack)}"
+
+        def arm(t):
+            if t[0] == "gate":
+                return [_located(ast.If(test=_Term(t[1], e), body=arm(t[2]), orelse=arm(t[3])), e)]
+            call_ = ast.Call(func=ast.Attribute(value=g.args[0], attr=t[1], ctx=ast.Load()), args=list(e.args), keywords=list(e.keywords))
+            return [_located(ast.Assign(targets=[ast.Name(id=tmp, ctx=ast.Store())], value=call_, type_comment=None), e)]
+        ev, _, _ = self.block(arm(name))
+        events.extend(ev)
+        return self.env.pop(tmp)
+
     def call(self, e, events):
+        chosen = self._getattr_choice_call(e, events)
+        if chosen is not None:
+            return chosen
         folded = self._reduce_as_loop(e, events)
         if folded is not None:
             return folded
@@ -4047,6 +4100,19 @@ class Summariser:
                 self.prog.resolve_name(self.module, e.func.id) is None and not e.keywords and \
                 len(e.args) == (2 if e.func.id == "getattr" else 3) and not any(isinstance(a, ast.Starred) for a in e.args):
             name = self._expr(e.args[1], [])
+            if e.func.id == "getattr" and len(e.args) == 2 and name[0] == "gate":
+                def by_name(t):
+                    if t[0] == "gate":
+                        a_, b_ = by_name(t[2]), by_name(t[3])
+                        return gate(t[1], a_, b_) if a_ is not None and b_ is not None else None
+                    if t[0] == "const" and isinstance(t[1], str) and t[1].isidentifier():
+                        node = ast.copy_location(ast.Attribute(value=e.args[0], attr=t[1], ctx=ast.Load()), e)
+                        node.end_lineno = getattr(e, "end_lineno", e.lineno)
+                        return self._expr(node, events)
+                    return None
+                got = by_name(name)         # getattr(obj, 'a' if c else 'b') is obj.a if c else obj.b
+                if got is not None:
+                    return got
             if name[0] == "const" and isinstance(name[1], str) and name[1].isidentifier() and \
                     not (isinstance(e.args[0], ast.Name) and self.is_self(e.args[0]) and e.func.id == "getattr"):
                 # getattr(obj, "name") / setattr(obj, "name", v) with a known name are obj.name / obj.name = v
@@ -4259,6 +4325,22 @@ class Summariser:
                                                  "next": "__next__"}[f.id], events, e)
                     if got is not None:
                         return got
+                if f.id == "next" and len(args) == 2 and not kwargs and args[0][0] == "comp" and args[0][1] == "gen" and \
+                        args[0][4] is None and args[0][5][0] != "flat" and args[0][3][0] == "tuple" and len(args[0][3]) == 2 and \
+                        1 <= len(args[0][3][1]) <= 4:
+                    # next((v for x in (a, b) if test(x)), default): the value for the first item that passes, else the default
+                    c_ = args[0]
+                    out = args[1]
+                    for item in reversed(c_[3][1]):
+                        m_ = {("elem", c_[2]): item}
+                        conds = [subst(x, m_) for x in c_[6]]
+                        # components of the item display
+                        val = subst(c_[5], m_)
+                        conds = [_resolve_tgets(x) for x in conds]
+                        val = _resolve_tgets(val)
+                        cond = conds[0] if len(conds) == 1 else (("and", tuple(conds)) if conds else ("const", True))
+                        out = val if cond == ("const", True) else gate(cond, val, out)
+                    return out
                 if f.id == "next" and len(args) == 1 and not kwargs and args[0][0] == "genobj":
                     got = self._stream_next(args[0], events, e)
                     if got is not None:
@@ -5342,6 +5424,31 @@ class Summariser:
                 return self._call_any(recv[3], args, kwargs, events, e)
             def maybe_callable(x):
                 return callable_leaf(x) or x[0] == "gate"
+            # `None(...)` raises: an arm that is None contributes no value (the call there is a TypeError)
+            if recv[3] == ("const", None) and maybe_callable(recv[2]):
+                ev_arm = []
+                self.facts.append(cond)
+                try:
+                    a = self._call_any(recv[2], args, kwargs, ev_arm, e)
+                finally:
+                    self.facts.pop()
+                if a is None:
+                    return None
+                if ev_arm:
+                    events.append(If(cond, ev_arm, [], e.lineno, False))
+                return gate(cond, a, RAISES)
+            if recv[2] == ("const", None) and maybe_callable(recv[3]):
+                ev_arm = []
+                self.facts.append(negate(cond))
+                try:
+                    b = self._call_any(recv[3], args, kwargs, ev_arm, e)
+                finally:
+                    self.facts.pop()
+                if b is None:
+                    return None
+                if ev_arm:
+                    events.append(If(cond, [], ev_arm, e.lineno, False))
+                return gate(cond, RAISES, b)
             if not (maybe_callable(recv[2]) and maybe_callable(recv[3])):
                 return None
             env0, f0 = dict(self.env), dict(self.fields)
@@ -5902,6 +6009,18 @@ class Summariser:
 def _plain_list(node):
     """A list display written out item by item (no `*xs` inside)."""
     return isinstance(node, ast.List) and not any(isinstance(x, ast.Starred) for x in node.elts)
+
+
+def _resolve_tgets(t):
+    """Components of tuple displays read by position: (a, b).0 is a."""
+    if not isinstance(t, tuple) or not t:
+        return t
+    t = tuple(_resolve_tgets(x) if isinstance(x, tuple) else x for x in t)
+    if t[0] == "tget" and isinstance(t[1], tuple) and t[1] and t[1][0] == "tuple" and isinstance(t[2], int) and t[2] < len(t[1][1]):
+        return t[1][1][t[2]]
+    if t[0] == "cmp" and len(t) == 4:
+        return cmp_term(t[1], t[2], t[3])
+    return t
 
 
 def _located(node, at):
